@@ -63,7 +63,7 @@ static void run_case(const std::string& cid, Toks& t) {
         printf("%s R %s\n", cid.c_str(), nums_str(res).c_str());
         printf("%s X %s\n", cid.c_str(), nums_str(x.data(), s.n).c_str());
         delete A;
-    } else if (op == "cg_par" || op == "bi_par" || op == "pcg_par") {
+    } else if (op == "cg_par" || op == "bi_par" || op == "pcg_par" || op == "bi_par_si" || op == "bi_par_sn" || op == "bi_par_sisn") {
         Sys s; s.parse(t);
         if (s.P != g_np) return;
         ParCSRMatrix* A = s.parcsr();
@@ -106,7 +106,12 @@ static void run_case(const std::string& cid, Toks& t) {
             emit0(cid, "PL", num_str(dev) + " " + num_str(mag) + " " + std::to_string(nlev) + " " + num_str(rz));
         } else {
             mute();
-            if (op == "cg_par") CG(A, x, b, res, s.tol, s.maxit); else BiCGStab(A, x, b, res, s.tol, s.maxit);
+            // bi_par_si / _sn / _sisn: the same method with the inner products and/or norms accumulated rank after rank
+            if (op == "cg_par") CG(A, x, b, res, s.tol, s.maxit);
+            else if (op == "bi_par_si") SeqInner_BiCGStab(A, x, b, res, s.tol, s.maxit);
+            else if (op == "bi_par_sn") SeqNorm_BiCGStab(A, x, b, res, s.tol, s.maxit);
+            else if (op == "bi_par_sisn") SeqInnerSeqNorm_BiCGStab(A, x, b, res, s.tol, s.maxit);
+            else BiCGStab(A, x, b, res, s.tol, s.maxit);
             unmute();
         }
         emit_all(cid, "R", nums_str(res));        // every rank's history (must be identical)
